@@ -29,7 +29,7 @@ def untyped_iri(i):
 ODD_SCHEME_IRIS = ["urn:x:u0", "mailto:u1@ex.org", "tel:+34985000000"]
 
 
-LIT_KINDS = ["str", "lang", "lang2", "integer", "int", "date", "decimal", "custom"]
+LIT_KINDS = ["str", "lang", "lang2", "integer", "int", "date", "decimal", "custom", "spaced"]
 
 
 def make_lit(kind, k):
@@ -52,6 +52,10 @@ def make_lit(kind, k):
         return ["lit", "%d.5" % k, XSD + "decimal", ""]
     if kind == "custom":
         return ["lit", "v%d" % k, CUSTOM_DT, ""]
+    if kind == "spaced":
+        return ["lit", ["a  b", "x   y z", "two  blanks", " lead"][k], XSD_STRING, ""]
+    if kind == "multiline":
+        return ["lit", ["line one\nline two", "a\nb\nc", "tab\there", "cr\r\nlf"][k], XSD_STRING, ""]
     raise ValueError(kind)
 
 
@@ -292,6 +296,9 @@ def consistent(draw, max_classes=3, max_inst=4, max_props=3, bnode_classes=False
 
 
 NS_DICT_CHOICES = [
+    # namespaces that end neither in '/' nor in '#' (OBO style: http://purl.obolibrary.org/obo/RO_)
+    {"http://ex.org/n": "nn", "http://ex.org/ns/p": "pp", "http://ex.org/C": "cc"},
+    {"http://ex.org/ns/": "ns", "http://ex.org/ns/n": "nsn", "http://other.org/v#C": "vc", "https://data.example/n": "dn"},
     {"http://ex.org/": "ex", "http://www.w3.org/2001/XMLSchema#": "xsd", "http://www.w3.org/1999/02/22-rdf-syntax-ns#": "rdf"},
     {"http://ex.org/ns/": "ns", "http://other.org/v#": "v", "https://data.example/": "d"},
     {"http://ex.org/": "", "http://ex.org/ns/": "weso-s"},
@@ -303,7 +310,7 @@ def harmless_extras(draw):
     """options that must not change any count, key or cardinality (they only change spelling / add annotations)"""
     cfg = {}
     k = draw(st.integers(0, 11))
-    if k == 0:
+    if k in (0, 4, 5):
         cfg["namespaces_dict"] = draw(st.sampled_from(NS_DICT_CHOICES))
     elif k == 1:
         cfg["detect_minimal_iri"] = True
